@@ -207,6 +207,8 @@ pub fn run_case(ctx: &Ctx, case: &Case, counting: bool) -> PResult {
 				diff: 1,
 				neg: Neg::None,
 				neg_pick: 0,
+			hdr: 0,
+			inp: 0,
 			})
 		})
 		.collect();
